@@ -52,6 +52,10 @@ Inductive pxcase :=
        routed (dial on demand). Per round: the tokens of the envelopes for X delivered after AddClient had returned
        and the proxy had settled; the tokens X's attached connection was handed (-777: altered); the number of
        newConnection(X) calls made after that point *)
+| CProxyReply (replies : list (list Z * (Z * Z) * (option (list Z) * (Z * Z))))
+    (* tie of [reply_of] (Model/Proxy.v) to server.go: the real Server was sent a request with this route record,
+       source and destination; its reply (unary reply / error reply / RST_STREAM) carried this return route, source
+       and destination *)
 | CProxyE2E (results : list (Z * Z))
     (* (expected, observed) outcome tokens of RPCs run through a real Proxy (+ Demux + Server) *)
 | CProxyFree (pname : Z) (buf : nat) (icp : Z) (names : list Z) (sent : list (Z * env)) (got : list (Z * env)) (drops : Z) (clean : bool).
@@ -683,6 +687,12 @@ Definition check (c : pxcase) : list nat :=
       if forallb (fun r => match r with (sent, got, dials) =>
                     lz_eqb (filter (fun x => mem Z.eqb x sent) got) sent && (dials =? 0) end) rounds
       then [] else [7%nat]
+  | CProxyReply replies =>
+      if forallb (fun r => match r with (rc, (src, dst), (next, (rsrc, rdst))) =>
+                    let rp := reply_of (mkEnv true src dst rc None 0) 0 in
+                    option_eqb lz_eqb (next_canon (e_next rp)) (next_canon next)
+                    && (e_src rp =? rsrc) && (e_dst rp =? rdst) end) replies
+      then [] else [10%nat]
   | CProxyE2E results =>
       if forallb (fun p => fst p =? snd p) results then [] else [6%nat]
   | CProxyFree pname buf icp names sent got drops clean =>
